@@ -1,3 +1,11 @@
 ; secp256k1 group order and its half (EIP-2: from Homestead on, S must be in the lower half)
 (define-fun SECP_N () Int 115792089237316195423570985008687907852837564279074904382605163141518161494337)
 (define-fun SECP_HALFN () Int 57896044618658097711785492504343953926418782139537452191302581570759080747168)
+; chain id carried by a signature's V, exactly as the code derives it (64-bit fast path included),
+; and the replay-protection test on V
+(define-fun dchain ((v Int)) Int
+  (ite (< v 18446744073709551616)
+       (ite (or (= (L64 v) (_ bv27 64)) (= (L64 v) (_ bv28 64))) 0 (U64 (bvudiv (bvsub (L64 v) (_ bv35 64)) (_ bv2 64))))
+       (div (- v 35) 2)))
+(define-fun protv ((v Int)) Bool
+  (ite (< v 256) (and (distinct (L64 v) (_ bv27 64)) (distinct (L64 v) (_ bv28 64))) true))
